@@ -155,6 +155,7 @@ def run_check(prop, tier, seed, replay=None):
     prop = prop.upper()
     ensure_deps()
     sys.path.insert(0, ROOT)
+    sys.path.insert(0, REPO)
     os.environ.setdefault("PYTHONDONTWRITEBYTECODE", "1")
     work = os.path.join(ROOT, ".work", "%s.%s.%d.%d" % (prop, tier, seed, os.getpid()))
     os.makedirs(work, exist_ok=True)
